@@ -115,6 +115,12 @@ theorem evalList_map {α} (z : Nat → Rat) (l : List α) (g : α → Expr) :
   | nil => simp [evalExpr.evalList]
   | cons x t ih => simp only [List.map_cons, evalExpr.evalList, List.sum_cons, ih]
 
+theorem evalList_replicate_zero (z : Nat → Rat) (k : Nat) :
+    evalExpr.evalList z (List.replicate k (.num 0)) = 0 := by
+  induction k with
+  | zero => rfl
+  | succ k ih => simp only [List.replicate_succ, evalExpr.evalList, evalExpr, ih]; grind
+
 theorem supp_false_c (m : MatrixModel) (j : Nat) (h : supp m j = false) : cCoef m j = 0 := by
   unfold supp at h
   simp only [Bool.or_eq_false_iff, bne_eq_false_iff_eq] at h
@@ -141,7 +147,7 @@ theorem writtenObj_eq (m : MatrixModel) (hq : ∀ c ∈ m.Q.index, c < m.n) (hst
     unfold feedObjExpr
     split
     · next h => simp [qEntries, h, evalExpr]; grind
-    · rw [evalExpr, evalList_append, evalList_map]
+    · rw [evalExpr, evalList_append, evalList_append, evalList_replicate_zero, evalList_map]
       congr 1
       · split <;> simp_all [evalExpr.evalList, evalExpr] <;> grind
       · congr 1
@@ -154,17 +160,11 @@ theorem writtenObj_eq (m : MatrixModel) (hq : ∀ c ∈ m.Q.index, c < m.n) (hst
   rw [hlin, hquad, spec_quad_eq m hst]
   grind
 
-/-- `ComputeObjValue` with non-null coefficients is the caller's objective -/
-theorem computeObjValue_eq (m : MatrixModel) (c : List Rat) (hc : m.c = some c) (hst : ∀ s ∈ m.Q.start, s ≤ m.Q.nnz)
+/-- `ComputeObjValue` is the caller's objective -/
+theorem computeObjValue_eq (m : MatrixModel) (hst : ∀ s ∈ m.Q.start, s ≤ m.Q.nnz)
     (x : Nat → Rat) : computeObjValue m x = some (objSpec m x) := by
   unfold computeObjValue objSpec
-  rw [hc]
   simp only [foldl_add, Option.some.injEq]
   rw [spec_quad_eq m hst, List.map_reverse, List.sum_reverse]
-  have : (List.range m.n).map (fun j => cCoef m j * x j) = (List.range m.n).map (fun j => c.getD j 0 * x j) := by
-    apply List.map_congr_left
-    intro j _
-    simp [cCoef, hc]
-  rw [this]
 
 end MpVerif.C08
